@@ -217,7 +217,24 @@ func (fc *FnCtx) instrWrites(in ssa.Instruction, ws *WriteSet, inOwnFn bool) {
 				fc.ptrTargets(x.Type().Underlying().(*types.Pointer).Elem(), ws)
 			}
 		}
+	case *ssa.Select:
+		if fc.contract != nil && inOwnFn {
+			for _, aa := range fc.contract.Asserts {
+				if aa.Anchor == "select" && aa.Set != nil {
+					ws.add("g_" + aa.Set.Name)
+				}
+			}
+		}
 	case *ssa.Store:
+		if fc.contract != nil && inOwnFn {
+			if a, ok := x.Addr.(*ssa.Alloc); ok && a.Comment != "" {
+				for _, aa := range fc.contract.Asserts {
+					if aa.Anchor == "assign" && aa.Var == a.Comment && aa.Set != nil {
+						ws.add("g_" + aa.Set.Name)
+					}
+				}
+			}
+		}
 		tmp := newWS()
 		fc.storeTargets(x.Addr, tmp)
 		for n := range tmp.Names {
